@@ -5,4 +5,8 @@ class NixSyntaxError(SyntaxError):
 class ResolutionError(Exception):
     """Raised when an identifier cannot be resolved within scope."""
 
-    pass
+    # True when a name has no definition (as opposed to a cycle or a malformed
+    # scope); `last_binding` then is the last link of the reference chain that
+    # could still be followed, if the failure happened further along.
+    unbound: bool = False
+    last_binding: object = None
